@@ -880,8 +880,6 @@ example : removeFirst [.dense [[0, 1, 2]] [[1, 2, 3]], .dense [[0, 1]] [[1, 2]]]
 
 /-! ## Exact equality: where `==` *is* an equivalence -/
 
-private theorem omap_id {γ : Type} (o : Option γ) : Option.map id o = o := by cases o <;> rfl
-
 /-- `==` is not transitive in general (`close_not_trans`); restricted to *exactly equal* values it
 is an equivalence relation on well-formed datasets: reflexive, … -/
 theorem exact_refl {a : Data ℚ} (ha : a.WF) : exactEq a a = true := by
